@@ -775,8 +775,9 @@ def m9_signal_parent(S):
     cmds = _variants("script/src/types.rs", "ChunkCommand")
     tr = field_index("script/src/types.rs", "TerminatedResult")
     X.ENUMS["Out"] = ["_0", "_1", "Disabled"]            # tokio::select! with two branches declares `enum Out<_0, _1> { _0(_0), _1(_1), Disabled }`
-    ROUNDS = 5 if S.tier == "thorough" else 3
+    ROUNDS = 4 if S.tier == "thorough" else 3
     ctx = S.ctx(unwind=ROUNDS + 2)
+    ctx.max_paths = 20000
     ctx.uninterpreted_unknown_calls = True
     mx = ctx.int("max_cycles", "u64")
     which = [ctx.int(f"select_round_{k}", "u8") for k in range(ROUNDS + 2)]          # 0 command channel changed, 1 child finished, 2 both disabled
@@ -916,7 +917,7 @@ LEVEL = "other"
 EXPLANATION = ("The transaction-level cycle accounting of ckb-script (verify, resumable_verify, resume_from_state, complete) is executed symbolically from its MIR over three script groups with symbolic "
                "costs, budgets and suspension points; one script-group run is an environment symbol obeying the stated contract (completes iff the remaining cost fits into the budget, else "
                "suspends with the progress made). The solver decides that totals and verdicts do not depend on how the run was chunked. The child task of chunk_run_with_signal is executed as a coroutine body with the command channel and the scheduler as environment.")
-BOUNDS = {"groups": "3 script groups (thorough: 5), any costs / budgets / progress (u64)", "signal_task": "up to 4 command rounds (thorough: 7), any command sequence and run outcomes", "signal_parent": "3 select rounds (thorough: 5), any commands, any child result",
+BOUNDS = {"groups": "3 script groups (thorough: 5), any costs / budgets / progress (u64)", "signal_task": "up to 4 command rounds (thorough: 7), any command sequence and run outcomes", "signal_parent": "3 select rounds (thorough: 4), any commands, any child result",
           "outside": "the CKB-VM and the scheduler (that a real script run satisfies the contract), tokio's select!/channel internals, spawn/exec"}
 ASSUMPTIONS = ["contract of one script-group run: uninterrupted cost c; with budget b from progress p it completes iff c - p <= b reporting (used = c, consumed = c - p), else suspends with a recorded progress p' with p <= p' <= p + b",
                "contract of the scheduler in the signal task: the consumed-cycle counter never decreases and one run consumes at most the limit it was given",
